@@ -52,7 +52,7 @@ func ruleParseEmit(w *World, r *RuleResult) {
 			errF = f.Name()
 		}
 	}
-	if linesF == "" || curF == "" || errF == "" {
+	if linesF == "" || curF == "" {
 		r.undecided("fields", "-", "parser fields (line list, current line, error) not resolved")
 		return
 	}
@@ -91,6 +91,10 @@ func ruleParseEmit(w *World, r *RuleResult) {
 				if e.Kind == "store" && e.LV.Op == "sel" && e.LV.S == errF && e.Val.Op != "nil" {
 					return true
 				}
+			}
+			// or the error is handed back to the driver as a second result
+			if p.End == "ret" && len(p.Ret) > 1 && p.Ret[len(p.Ret)-1].Op != "nil" {
+				return true
 			}
 		}
 		return false
